@@ -9,7 +9,8 @@
        {"op":"is_running"|"ppid"|"create_time"|"hash","i":i}, {"op":"signal","i":i,"m":"send"|"suspend"|…,"sig":n},
        {"op":"setter","i":i,"k":"nice"|"ionice"|"rlimit"|"affinity","args":[…]}, {"op":"eq","i":i,"j":j},
        {"op":"boot_time"}, {"op":"process_iter"} (→ [[pid, object index], …] in yield order; new objects are
-       appended to the object list), {"op":"enter"|"leave","i":i} (oneshot block), {"op":"status","i":i} (str(p))
+       appended to the object list), {"op":"enter"|"leave","i":i} (oneshot block), {"op":"status","i":i} (str(p)),
+       {"op":"other","i":i,"what":name} (another public Process call: identity; "children" = the reuse guard)
        | {"op":"pairs"} (all pairwise ==, all hash keys)
   out: {"model":{"out":…,"eff":[…]},"spec":{…}}
 -/
@@ -63,6 +64,13 @@ def parseEv (j : Json) : R Ev := do
   else if op == "enter" then return .c (.oneshot (← natF j "i") true)
   else if op == "leave" then return .c (.oneshot (← natF j "i") false)
   else if op == "status" then return .c (.status (← natF j "i"))
+  else if op == "other" then
+    -- any OTHER public call on object i (wait(0), as_dict, name, status, cpu_times, str, hash, username, …): the identity
+    -- on the identity machine (`Call.oneshot`, C02_oneshot_identity) — except children(), which starts with the reuse
+    -- guard exactly like ppid() (`Call.ppid`); the harness ignores the outcome of these ops, not what follows them
+    let what ← strF j "what"
+    if what == "children" then return .c (.ppid (← natF j "i"))
+    else return .c (.oneshot (← natF j "i") true)
   else .error s!"unknown op {op}"
 
 def jExc : Exc → Json
